@@ -77,6 +77,9 @@ class GenAny(Generic[T_]): pass
 class GenBound(Generic[B_]): pass
 class GenConstr(Generic[C_]): pass
 NT = typing.NewType("NT", int)
+def _mk_same(): return type("SameName", (), {})
+_SameName1, _SameName2 = _mk_same(), _mk_same()
+_SameNT1, _SameNT2 = typing.NewType("SameNT", int), typing.NewType("SameNT", str)
 
 # groups of hints that denote the same type (by construction); different groups denote different types
 GROUPS = {
@@ -131,6 +134,14 @@ GROUPS = {
  "dict_str_list": [Dict[str, List[int]], dict[str, list[int]]],
  "annotated": [typing.Annotated[int, "m"]],
  "newtype": [NT],
+ # members whose rendered sort keys coincide (1 / "1", equal class names, spelling of a nested hint): nested, because the top-level lru_cache of
+ # normalize_type is keyed by typing's own order-insensitive Union equality
+ "samekey_lit": [List[Union[list[Literal[1]], list[Literal["1"]]]], list[Union[list[Literal["1"]], list[Literal[1]]]]],
+ "samekey_ann": [List[Union[typing.Annotated[int, 1], typing.Annotated[int, "1"]]], list[Union[typing.Annotated[int, "1"], typing.Annotated[int, 1]]]],
+ "samekey_cls": [List[Union[_SameName1, _SameName2]], list[Union[_SameName2, _SameName1]]],
+ "samekey_newtype": [List[Union[_SameNT1, _SameNT2]], list[Union[_SameNT2, _SameNT1]]],
+ "samekey_callable": [List[Union[typing.Callable[[List[int]], int], typing.Callable[[list[int]], str]]], list[Union[typing.Callable[[list[int]], str], typing.Callable[[List[int]], int]]]],
+ "samekey_dict": [Dict[str, Union[Tuple[Literal[0]], Tuple[Literal["0"]]]], dict[str, Union[tuple[Literal["0"]], tuple[Literal[0]]]]],
 }
 NORMS = {g: [normalize_type(t) for t in ts] for g, ts in GROUPS.items()}
 
@@ -188,7 +199,7 @@ LOADERS = {}
 DUMPERS = {}
 BUILD_ERRORS = []
 for _g, _ts in GROUPS.items():
-    if _g in ("gen_any", "gen_bound", "gen_constr"):
+    if _g in ("gen_any", "gen_bound", "gen_constr", "samekey_cls", "samekey_callable"):
         continue
     for _i, _t in enumerate(_ts):
         for _strict in (True, False):
